@@ -218,9 +218,9 @@ func c06Pool(r *vg.Rand, maxBytes int64, full bool) types.Txs {
 }
 
 type c06Proposal struct {
-	block  *types.Block
-	parts  *types.PartSet
-	asked  int64
+	block   *types.Block
+	parts   *types.PartSet
+	asked   int64
 	paniced bool
 }
 
@@ -318,7 +318,9 @@ func c06Perts() []c06Pert {
 		hdr("version.block+1", func(c *c06Chain, h *types.Header) { h.Version.Block++ }),
 		hdr("version.app+1", func(c *c06Chain, h *types.Header) { h.Version.App++ }),
 		hdr("chainid.other", func(c *c06Chain, h *types.Header) { h.ChainID = h.ChainID[:len(h.ChainID)-1] + "~" }),
-		hdr("chainid.long", func(c *c06Chain, h *types.Header) { h.ChainID = string(bytes.Repeat([]byte("y"), types.MaxChainIDLen+1)) }),
+		hdr("chainid.long", func(c *c06Chain, h *types.Header) {
+			h.ChainID = string(bytes.Repeat([]byte("y"), types.MaxChainIDLen+1))
+		}),
 		hdr("height+1", func(c *c06Chain, h *types.Header) { h.Height++ }),
 		hdr("height-1", func(c *c06Chain, h *types.Header) { h.Height-- }),
 		hdr("height=0", func(c *c06Chain, h *types.Header) { h.Height = 0 }),
